@@ -58,3 +58,11 @@ Definition mvolume (m : measure) (inp : mc_input) (dmin dmax : Z) (r c k : Z) : 
 Definition pixel_costs (val : cellv -> Q) (m : measure) (inp : mc_input) (dmin dmax : Z) (r c : Z) : list cost :=
   map (fun k => omap (fun v => Fin (val v)) (mvolume m inp dmin dmax r c k))
       (zrange 0 (nb_disp (i_s inp) dmin dmax)).
+
+(* ---- state of the disparity products for the last clause of the property: the map and which pixels
+   are valid (validity_mask & PANDORA_MSK_PIXEL_INVALID == 0) *)
+Record dstate := mkD { d_map : Z -> Z -> option Q; d_valid : Z -> Z -> bool }.
+(* right after the disparity step a pixel is valid iff it has a computable cost *)
+Definition has_cost (m : measure) (inp : mc_input) (dmin dmax r c : Z) : bool :=
+  existsb (fun k => match mvolume m inp dmin dmax r c k with Some _ => true | None => false end)
+          (zrange 0 (nb_disp (i_s inp) dmin dmax)).
